@@ -32,7 +32,8 @@ CFG = dict(
                         "clean_up_ran_task_scheduled_during_clean_up": 100, "timestamp_uint64_max": 100,
                         "task_due_one_tick_after_run_all_time": 100, "task_due_exactly_at_run_all_time": 200,
                         "heap_grew_beyond_default": 100,
-                        "cancel_of_never_scheduled_task_while_heap_nonempty": 100}},
+                        "cancel_of_never_scheduled_task_while_heap_nonempty": 100,
+                        "clean_up_unwound_chain_of_17_or_more_generations": 50}},
 )
 
 META = dict(
